@@ -397,6 +397,12 @@ Definition failover (c : coord) (w : N) (os : list bool) (word : list N) (pord :
 
 Inductive drain_res := DrainNotFound | DrainAlready | DrainDone (migrated : N).
 
+(* the migration loop of drain_worker (after marking the worker Draining) *)
+Definition drain_loop (c : coord) (w : N) (os : list bool) (word : list N) (pord : list (N * N))
+  : coord * list (option bool) :=
+  let c1 := upd_worker c w (w_set_status WDraining) in
+  evacuate c1 word w (filter (placed_on c1 w) pord) os.
+
 Definition drain (c : coord) (w : N) (os : list bool) (word : list N) (pord : list (N * N))
   : coord * drain_res :=
   match get (workers c) w with
@@ -404,8 +410,7 @@ Definition drain (c : coord) (w : N) (os : list bool) (word : list N) (pord : li
   | Some wk =>
     if wstatus_eqb (wst wk) WDraining then (c, DrainAlready)
     else
-      let c1 := upd_worker c w (w_set_status WDraining) in
-      let '(c2, res) := evacuate c1 word w (filter (placed_on c1 w) pord) os in
+      let '(c2, res) := drain_loop c w os word pord in
       (set_workers c2 (remove (workers c2) w),
        DrainDone (N.of_nat (length (filter (fun r => match r with Some true => true | _ => false end) res))))
   end.
